@@ -79,6 +79,31 @@ Proof.
   split; [exact C|exact G].
 Qed.
 
+(** a group that already satisfies the bounds is not split again (what a
+    forwarding agent re-floods is one advertisement) *)
+Lemma split_aux_fits : forall rs cur cnt size,
+  cnt = lenN cur -> size = sizes cur ->
+  cnt + lenN rs <= max_routes_per_adv -> size + sizes rs <= max_route_bytes_per_adv ->
+  split_routes_aux rs cur cnt size = [rev cur ++ rs].
+Proof.
+  induction rs as [|r rs IH]; intros cur cnt size Hc Hs Lc Ls; cbn [split_routes_aux].
+  - rewrite app_nil_r. reflexivity.
+  - cbn [lenN sizes fold_right] in Lc, Ls. fold (sizes rs) in Ls.
+    assert (E : (0 <? cnt) && ((max_routes_per_adv <=? cnt) || (max_route_bytes_per_adv <? size + route_wire_size r)) = false).
+    { apply andb_false_iff. right. apply orb_false_iff. split; [apply N.leb_gt; lia|apply N.ltb_ge; lia]. }
+    rewrite E. rewrite (IH (r :: cur) (cnt + 1) (size + route_wire_size r)).
+    + cbn [rev]. rewrite <- app_assoc. reflexivity.
+    + cbn [lenN]. lia.
+    + cbn [sizes fold_right]. fold (sizes cur). lia.
+    + lia.
+    + lia.
+Qed.
+
+Lemma split_routes_fits : forall g, group_ok g -> split_routes g = [g].
+Proof.
+  intros g [Gc Gs]. unfold split_routes. rewrite (split_aux_fits g [] 0 0); try reflexivity; cbn [lenN sizes fold_right]; lia.
+Qed.
+
 (** a route within its wire limits occupies at most 516 bytes: one always fits a group *)
 Lemma plen_domain_le : forall b n, plen_domain b = Some n -> n <= 256.
 Proof.
